@@ -21,9 +21,20 @@ def part_jobs(entry, args, partition, **kw):
     return [job(entry, args, part=p, **kw) for p in partition]
 
 
+def longtok_jobs(tier, flags=(0, 1)):
+    jobs = []
+    Ls = (31, 32, 33) if tier == "quick" else (29, 30, 31, 32, 33, 34)
+    for k in range(15):
+        for L in Ls:
+            for pre, post in ((0, 1), (1, 0)):
+                for f in flags:
+                    jobs.append(job("HLongTok", [k, L, pre, post, f], safety=True, witness_every=20))
+    return jobs
+
+
 def c01(tier, seed):
     c = Check("C01", tier, seed)
-    N = 3 if tier == "quick" else 4
+    N, NU, NT = (3, 5, 2) if tier == "quick" else (4, 7, 3)
     jobs = []
     for n in range(0, N + 1):
         if n <= 1:
@@ -31,43 +42,55 @@ def c01(tier, seed):
         else:
             jobs += part_jobs("HSqliTotal", [n], SQL_PARTS, safety=True, witness_every=200 if n >= 3 else 20)
     c.run_group("W", BASE + H("h_total.go"), jobs)
-    return c.finish("model_checking", "one symbolic path per feasible path condition of IsSQLi over every byte string of length <= %d; each path's index/slice/nil/division obligations decided by z3 or the byte-domain procedure" % N,
-                    {"W_free_bytes": N})
+    jobs = []
+    for f in range(5):
+        jobs += wjobs("HLex", NU, extra=[f], split_from=4, safety=True)
+    c.run_group("U-first-token", SQLI, jobs, expect_labels=["token", "end"])
+    c.run_group("T-long-tokens", SQLI, longtok_jobs(tier), expect_labels=["end"])
+    jobs = []
+    for w in range(41):
+        for n in range(0, NT + 1):
+            for pre in ((0,) if n == NT and tier == "quick" else (0, 1, 2, 3)):
+                jobs.append(job("HSqlOpener", [w, n, pre], safety=True, witness_every=50))
+    c.run_group("T-openers", BASE + H("h_total.go"), jobs, expect_labels=["done"])
+    return c.finish("model_checking", "every feasible path of IsSQLi over every byte string of length <= %d; first scan step in 5 modes for inputs <= %d; 15 kinds of long tokens (29-34 bytes) with a free byte before or after; 41 construct openers x 4 context prefixes + <= %d free bytes; each path's index/slice/nil/division/step-budget obligations decided by z3 or the byte-domain procedure" % (N, NU, NT),
+                    {"W_free_bytes": N, "U_free_bytes": NU, "opener_tail_free_bytes": NT})
 
 
 def c02(tier, seed):
     c = Check("C02", tier, seed)
-    N = 4 if tier == "quick" else 6
+    N, NS, NC, NT = (4, 5, 6, 3) if tier == "quick" else (6, 7, 8, 4)
     jobs = []
     for ctx in range(5):
         for n in range(0, N + 1):
             jobs.append(job("HXssCtxTotal", [n, ctx], safety=True, witness_every=20))
     c.run_group("W", BASE + H("h_total.go"), jobs)
-    return c.finish("model_checking", "isXSS in each of the 5 contexts over every byte string of length <= %d" % N, {"W_free_bytes": N})
-
-
-def c16(tier, seed):
-    c = Check("C16", tier, seed)
-    NU, NW = (5, 3) if tier == "quick" else (7, 4)
+    XU = BASE + H("h_xss_units.go")
     jobs = []
-    for f in range(5):
-        for n in range(0, NU + 1):
-            if n <= 3:
-                jobs.append(job("HLex", [n, f], safety=True, witness_every=25))
-            else:
-                jobs += part_jobs("HLex", [n, f], SQL_PARTS, safety=True, witness_every=400)
-    c.run_group("U-first-token", BASE + H("h_sqli.go"), jobs, expect_labels=["token", "end"])
+    for st in range(22):
+        for n in range(0, NS + 1):
+            for p in (0, 1):
+                if p <= n:
+                    jobs.append(job("HStateRun", [n, st, p], safety=True, witness_every=40))
+    c.run_group("U-state-run", XU, jobs, expect_labels=["stopped"])
+    # call depth must not grow with the input length: the bound is the depth measured at a small size plus slack 2
     jobs = []
-    for f in range(5):
-        for n in range(0, NW + 1):
-            if n <= 2:
-                jobs.append(job("HStream", [n, f], safety=True, witness_every=25))
-            else:
-                jobs += part_jobs("HStream", [n, f], SQL_PARTS, safety=True, witness_every=400)
-    c.run_group("W-stream", BASE + H("h_sqli.go"), jobs, expect_labels=["end"])
-    return c.finish("model_checking", "per-token shape (value = input slice, clip, span, class) on the first scan step for all inputs <= %d bytes in 5 modes; chain conditions over the whole token stream for all inputs <= %d bytes in 5 modes" % (NU, NW),
-                    {"U_free_bytes": NU, "W_free_bytes": NW, "modes": 5})
-
+    for st in range(22):
+        for n in (NS - 1, NS + 1):
+            jobs.append(job("HStateDepth", [n, st, 1 if n >= 1 else 0, 8], safety=True))
+    c.run_group("U-depth", XU, jobs, expect_labels=["stopped"])
+    jobs = []
+    for w in range(25):
+        for ctx in (0, 1):
+            for n in range(0, NT + 1):
+                jobs.append(job("HOpener", [n, w, ctx], safety=True, witness_every=20))
+    c.run_group("T-openers", XU, jobs)
+    jobs = []
+    for w in range(5):
+        jobs += wjobs("HClassTotal", NC, extra=[w], partition=XSS_PARTS, split_from=6, safety=True)
+    c.run_group("U-classifiers", BASE + H("h_url.go") + S("entity.go", "strlit.go"), jobs, expect_labels=["done"])
+    return c.finish("model_checking", "isXSS in each of the 5 contexts over every byte string <= %d; every tokenizer state from offsets 0/1 run to completion on inputs <= %d (no panic, bounded call depth <= 8 at two sizes); 25 openers + <= %d free bytes; classifiers and decoder on every string <= %d" % (N, NS, NT, NC),
+                    {"W_free_bytes": N, "state_free_bytes": NS, "opener_tail": NT, "classifier_free_bytes": NC})
 
 
 SQLI = BASE + H("h_sqli.go")
@@ -122,6 +145,17 @@ def c13(tier, seed):
     for k in (1, 2):
         jobs += wjobs("HXssPrefix", NP, extra=[k], partition=XSS_PARTS, split_from=9, safety=True)
     c.run_group("W-prefix", XSSA, jobs, expect_labels=["checked"])
+    jobs = []
+    step = 7 if tier == "quick" else 1
+    for i in range(seed % step, NEVENTS, step):
+        for ctx in range(5):
+            for sep in (0, 2):
+                jobs.append(job("HXssOrT", [0, i, ctx, sep if ctx >= 2 else 0], safety=True, witness_every=3, max_witness=1))
+    for i in range(NBLACKS):
+        for ctx in range(5):
+            for sep in (0, 2):
+                jobs.append(job("HXssOrT", [1, i, ctx, sep if ctx >= 2 else 0], safety=True, witness_every=3, max_witness=1))
+    c.run_group("T-vectors", XSST, jobs, expect_labels=["checked"])
     return c.finish("model_checking", "IsXSS = OR of contexts (inputs <= %d); context verdict = verdict of embedded markup (inputs <= %d, 4 contexts); prefix without '<' (<= 2 bytes) + input <= %d" % (NO, NE, NP),
                     {"or_free_bytes": NO, "embed_free_bytes": NE, "prefix_free_bytes": NP})
 
@@ -134,7 +168,34 @@ def c15(tier, seed):
     for ctx in range(5):
         jobs += wjobs("HXssNoLtEqCtx", NC, extra=[ctx], partition=XSS_PARTS, split_from=5, safety=True)
     c.run_group("W-ctx", XSSA, jobs, expect_labels=["checked"])
+    jobs = []
+    step = 5 if tier == "quick" else 1
+    for i in range(seed % step, NEVENTS, step):
+        jobs.append(job("HXssNameNoEqT", [0, i, 1, 1], safety=True, witness_every=50, max_witness=1))
+    for i in range(NBLACKS):
+        for pre, post in ((1, 1), (0, 2), (2, 0)):
+            jobs.append(job("HXssNameNoEqT", [1, i, pre, post], safety=True, witness_every=50, max_witness=1))
+    for i in range(4):
+        for pre, post in ((1, 1), (0, 2), (2, 0)):
+            jobs.append(job("HXssNameNoEqT", [2, i, pre, post], safety=True, witness_every=50, max_witness=1))
+    c.run_group("T-names", XSST, jobs, expect_labels=["checked"])
     return c.finish("model_checking", "IsXSS false for every string over bytes minus {<,=} of length <= %d; per context for length <= %d" % (NW, NC), {"W_free_bytes": NW, "ctx_free_bytes": NC})
+
+
+def c16(tier, seed):
+    c = Check("C16", tier, seed)
+    NU, NW = (5, 3) if tier == "quick" else (7, 4)
+    jobs = []
+    for f in range(5):
+        jobs += wjobs("HLex", NU, extra=[f], split_from=4, safety=True)
+    c.run_group("U-first-token", SQLI, jobs, expect_labels=["token", "end"])
+    jobs = []
+    for f in range(5):
+        jobs += wjobs("HStream", NW, extra=[f], safety=True)
+    c.run_group("W-stream", SQLI, jobs, expect_labels=["end"])
+    c.run_group("T-long-tokens", SQLI, longtok_jobs(tier, flags=(0, 1, 2)), expect_labels=["end"])
+    return c.finish("model_checking", "per-token shape (value = input slice, clip, span, class) on the first scan step for all inputs <= %d bytes in 5 modes; chain conditions over the whole token stream for all inputs <= %d bytes in 5 modes; 15 kinds of long tokens (bodies of 29-34 bytes) with a free byte before or after" % (NU, NW),
+                    {"U_free_bytes": NU, "W_free_bytes": NW, "modes": 5})
 
 
 def c17(tier, seed):
@@ -148,7 +209,7 @@ def c17(tier, seed):
                     jobs.append(job("HStateRun", [n, st, p], safety=True, witness_every=40))
     c.run_group("U-state-run", XSSU, jobs, expect_labels=["stopped"])
     jobs = []
-    for w in range(9):
+    for w in range(12):
         for n in range(0, NC + 1):
             jobs.append(job("HConstruct", [n, w], safety=True, witness_every=20))
     for w in range(6):
@@ -180,6 +241,12 @@ def c18(tier, seed):
         for n in range(k + 2, N + 2):
             jobs.append(job("HDollar", [n, k], safety=True, witness_every=10))
     c.run_group("U-literals", STR, jobs, expect_labels=["checked"])
+    jobs = []
+    for form in range(10):
+        for L in ((31, 32, 33) if tier == "quick" else (29, 30, 31, 32, 33, 34, 40)):
+            for post in (0, 1, 2):
+                jobs.append(job("HStrLongT", [form, L, post], safety=True, witness_every=5))
+    c.run_group("T-long-bodies", STR, jobs, expect_labels=["checked"])
     return c.finish("model_checking", "every literal form (quoted real/virtual/prefixed/variable, q-quote with any delimiter byte >= 33, dollar-quote with tags of 0-3 letters) on every input up to %d bytes vs the first-terminator oracle" % N,
                     {"U_free_bytes": N})
 
@@ -218,6 +285,12 @@ def c19(tier, seed):
     ND = 7 if tier == "quick" else 9
     c.run_group("U-decoder", URL, [job("HDecode", [n], witness_every=10) for n in range(0, ND + 1)], expect_labels=["checked"])
     jobs = []
+    for hexa in (0, 1):
+        for zeros in ((1, 4, 5, 6, 7, 8, 12) if tier == "quick" else range(1, 16)):
+            for n in ((2, 3) if tier == "quick" else (1, 2, 3, 4)):
+                jobs.append(job("HDecodeT", [n, zeros, hexa], witness_every=10))
+    c.run_group("T-decoder-zeros", URL, jobs, expect_labels=["checked"])
+    jobs = []
     schemes = range(4)
     names = ["javascript:", "vbscript:", "data:", "view-source:"]
     hexl = "abcdefABCDEF0123456789"
@@ -249,7 +322,333 @@ def c19(tier, seed):
                     {"decoder_free_bytes": ND, "templates": len(jobs)})
 
 
-PROPS = {"C06": c06, "C19": c19, "C20": c20, "C01": c01, "C02": c02, "C08": c08, "C12": c12, "C13": c13, "C15": c15, "C16": c16, "C17": c17, "C18": c18}
+SPECXSS = BASE + H("h_xss_units.go", "h_spec_xss.go") + S("entity.go", "h5tok.go", "strlit.go")
+
+
+def c07(tier, seed):
+    c = Check("C07", tier, seed)
+    NW, NS, NC, NX = (4, 5, 6, 4) if tier == "quick" else (6, 7, 8, 5)
+    jobs = []
+    for ctx in range(5):
+        jobs += wjobs("HSpecH5", NW + 1, extra=[ctx], partition=XSS_PARTS, split_from=5)
+        jobs += wjobs("HSpecXss", NW, extra=[ctx], partition=XSS_PARTS, split_from=4)
+    c.run_group("W-tokens-verdict", SPECXSS, jobs, expect_labels=["checked"])
+    c.run_group("W-api", SPECXSS, wjobs("HSpecIsXSS", NX, partition=XSS_PARTS, split_from=4), expect_labels=["checked"])
+    jobs = []
+    for st in range(22):
+        for n in range(0, NS + 1):
+            for p in (0, 1):
+                if p <= n:
+                    jobs.append(job("HSpecH5State", [n, st, p], witness_every=40))
+    c.run_group("U-states", SPECXSS, jobs, expect_labels=["checked"])
+    jobs = []
+    for w in range(4):
+        jobs += wjobs("HSpecClass", NC, extra=[w], partition=XSS_PARTS, split_from=6)
+    c.run_group("U-classifiers", SPECXSS, jobs, expect_labels=["checked"])
+    c.assumptions.append("text that reaches a Unicode case-folding call is ASCII (other paths are closed as excluded and counted)")
+    return c.finish("model_checking", "implementation vs independently written reference (spec/h5tok.go): token streams from the 5 start contexts (inputs <= %d), from each of the 22 states at offsets 0/1 (inputs <= %d), context verdicts (inputs <= %d), IsXSS (inputs <= %d), classifiers on free strings <= %d" % (NW + 1, NS, NW, NX, NC),
+                    {"W_free_bytes": NW, "state_free_bytes": NS, "classifier_free_bytes": NC, "api_free_bytes": NX})
+
+
+XSST = BASE + H("gen_vocab.go", "h_xss_tpl.go")
+NTAGS, NEVENTS, NBLACKS = 22, 319, 20
+
+
+def attr_shapes(tier, idx, ctx):
+    """(sep, eq, q, end, nul) shapes for one attribute vector; sep 2 (no separator) only after a closing quote"""
+    base = [(0, 0, 0, 0, 0)]
+    extra = [(1, 3, 1, 1, 0), (2, 1, 2, 0, 0), (3, 2, 3, 1, 2), (0, 0, 0, 1, 1), (1, 0, 2, 0, 3), (2, 3, 0, 1, 0), (0, 2, 1, 0, 4), (3, 1, 3, 0, 0)]
+    if tier == "quick":
+        shapes = base + [extra[idx % len(extra)]]
+    else:
+        shapes = base + extra + [(s, e, q, 0, 0) for s in range(4) for e in (0, 3) for q in range(4)]
+    out = []
+    for (sep, eq, q, end, nul) in shapes:
+        if sep == 2 and ctx < 2:
+            sep = 0
+        if q == 0 and end == 1 and False:
+            pass
+        out.append((sep, eq, q, end, nul))
+    return sorted(set(out))
+
+
+def c04(tier, seed):
+    c = Check("C04", tier, seed)
+    jobs = []
+    for i in range(NTAGS):
+        for ctx in range(5):
+            for end, nul in ((0, 0), (1, 0), (0, 2)) if tier == "quick" else ((0, 0), (1, 0), (2, 0), (3, 0), (4, 0), (0, 1), (0, 2), (1, 3)):
+                jobs.append(job("HXssTagT", [i, ctx, end, nul], safety=True, witness_every=2))
+    c.run_group("T-tags", XSST, jobs, expect_labels=["checked"])
+    jobs = []
+    for i in range(NEVENTS):
+        for ctx in range(5):
+            for (sep, eq, q, end, nul) in attr_shapes(tier, i, ctx):
+                jobs.append(job("HXssAttrT", [0, i, ctx, sep, eq, q, end, nul], safety=True, witness_every=2, max_witness=1))
+    c.run_group("T-events", XSST, jobs, expect_labels=["checked"])
+    jobs = []
+    for i in range(NBLACKS):
+        for ctx in range(5):
+            for (sep, eq, q, end, nul) in attr_shapes("thorough" if tier != "quick" else "quick", i, ctx) + ([(1, 3, 2, 0, 0), (3, 0, 1, 1, 2)] if tier == "quick" else []):
+                jobs.append(job("HXssAttrT", [1, i, ctx, sep, eq, q, end, nul], safety=True, witness_every=2, max_witness=1))
+    for i in range(2):
+        for ctx in range(5):
+            for (sep, eq, q, end, nul) in attr_shapes("thorough", i, ctx):
+                jobs.append(job("HXssAttrT", [2, i, ctx, sep, eq, q, end, nul], safety=True, witness_every=2, max_witness=1))
+    c.run_group("T-attributes", XSST, jobs, expect_labels=["checked"])
+    jobs = []
+    for w in range(8):
+        for ctx in range(5):
+            for tail in ((0, 1) if tier == "quick" else (0, 1, 2, 3)):
+                jobs.append(job("HXssMarkupT", [w, ctx, tail], safety=True, witness_every=2))
+    c.run_group("T-markup", XSST, jobs, expect_labels=["checked"])
+    return c.finish("model_checking", "every baseline black element (22), event handler (319), black attribute (20), xmlns/xlink, and 8 markup forms, in each of the 5 injection contexts, with symbolic letter case, separator and whitespace bytes, value byte, and NUL position; shapes (separator x '=' spacing x quoting x end x NUL) enumerated: %s" % ("base + one rotating shape per name" if tier == "quick" else "base + 8 mixed + separator x spacing x quoting grid"),
+                    {"vectors": "baseline vocabulary x contexts x shapes", "tier_shapes": tier})
+
+
+def c05(tier, seed):
+    import subprocess
+    c = Check("C05", tier, seed)
+    C5 = BASE + H("h_c05.go")
+    # (1) frame condition on every explored path: a write to an object reachable from a package variable is a violation
+    NS, NX, NT = (3, 4, 2) if tier == "quick" else (4, 5, 3)
+    jobs = []
+    jobs += wjobs("HFrameSqli", NS, safety=True, frame=True)
+    for ctx in range(5):
+        jobs += wjobs("HFrameXss", NX, extra=[ctx], partition=XSS_PARTS, split_from=5, safety=True, frame=True)
+    for w in range(10):
+        for n in range(0, NT + 1):
+            jobs.append(job("HFrameSqlT", [w, n], safety=True, frame=True, witness_every=50))
+            jobs.append(job("HFrameXssT", [w, n], safety=True, frame=True, witness_every=50))
+
+    race_log = []
+
+    def confirm(v, nat_res, r):
+        if v["msg"].startswith("frame condition"):
+            hexin = ""
+            for o in v.get("obs") or []:
+                if o[0] == "input":
+                    hexin = o[1]
+            got, out = c.nat.race(hexin)
+            race_log.append({"input": v["text"], "race_detected": got})
+            return got
+        return engine_to_native_ok(v, nat_res)
+
+    c.run_group("frame", C5, jobs, expect_labels=["done"], confirm=confirm)
+    # (2) history independence
+    jobs = []
+    sizes = ((1, 1), (2, 1), (1, 2)) if tier == "quick" else ((1, 1), (2, 1), (1, 2), (2, 2))
+    for nx, ny in sizes:
+        jobs += part_jobs("HHistSqli", [nx, ny], SQL_PARTS, safety=True, witness_every=500) if nx >= 2 else [job("HHistSqli", [nx, ny], safety=True, witness_every=100)]
+    for nx, ny in (((1, 1), (2, 2), (3, 1)) if tier == "quick" else ((1, 1), (2, 2), (3, 2), (2, 3))):
+        jobs += part_jobs("HHistXss", [nx, ny], XSS_PARTS, safety=True, witness_every=500) if nx >= 2 else [job("HHistXss", [nx, ny], safety=True, witness_every=100)]
+    jobs.append(job("HHistCross", [1, 1], safety=True, witness_every=100))
+    if tier != "quick":
+        jobs += part_jobs("HHistCross", [2, 1], SQL_PARTS, safety=True, witness_every=500)
+    for w in range(6):
+        for n in range(0, 3 if tier == "quick" else 4):
+            jobs.append(job("HHistXssT", [w, n], safety=True, witness_every=50))
+    c.run_group("history", C5, jobs, expect_labels=["checked"])
+    # (3) audit of the encoder's precondition over the whole package (flow-insensitive; not the deciding step)
+    ensure_engine()
+    r = subprocess.run([BIN, "audit", "-repo", REPO], capture_output=True, text=True, env=ENV)
+    try:
+        aud = json.loads(r.stdout)
+    except Exception:
+        raise Inconclusive("audit failed: " + (r.stdout + r.stderr)[-1500:])
+    findings = aud.get("findings") or []
+    c.extra_cov["static_audit"] = {"functions": aud.get("functions"), "findings": findings, "note": "stores/appends/copies through addresses derived from package variables, map updates, go/chan/sync/atomic/unsafe use outside init"}
+    c.extra_cov["race_detector_runs"] = race_log
+    if findings and not c.violations:
+        for f in findings[:10]:
+            c.inconclusive.append("static audit: %s in %s at %s, not reached (or not confirmed as a data race / history dependence) by the explored paths" % (f["what"], f["fn"], f["pos"]))
+    c.assumptions.append("from 'no write to shared memory on any explored path' to 'no data race under any schedule' is the standard argument (two calls that share only read-only memory cannot race); schedules themselves are not executed")
+    return c.finish("model_checking", "frame condition (no write to objects reachable from package variables) on every path of IsSQLi (inputs <= %d), isXSS in 5 contexts (<= %d) and 20 long templates + <= %d free bytes; history independence x,y,x for both detectors at small sizes; whole-package audit of global writes" % (NS, NX, NT),
+                    {"frame_sqli_free_bytes": NS, "frame_xss_free_bytes": NX, "template_tail": NT, "history_sizes": [list(x) for x in sizes]})
+
+
+COST = BASE + H("h_sqli.go", "h_xss_units.go", "h_cost.go")
+
+
+def c09(tier, seed):
+    c = Check("C09", tier, seed)
+    PB, SL = 48, 96  # frozen constants: abstract cost per byte, additive slack (measured worst cases: 18.2 per byte, +99)
+    K = 16 if tier == "quick" else 24
+    timing_log = []
+
+    def confirm(v, nat_res, r):
+        msg = v["msg"]
+        if "cost" in msg or "doubling" in msg:
+            obs = dict((o[0], o[1]) for o in (v.get("obs") or []))
+            if "unit" not in obs:
+                return False
+            api = "sqli" if (r["entry"] == "HRepeatSqli" or (r["entry"] == "HRepeatFree" and r["args"][2] == 0)) else "xss"
+            t = c.nat.timing(obs.get("pre", ""), obs["unit"], api)
+            timing_log.append({"entry": r["entry"], "args": r["args"], "input": v["text"], "native": t})
+            return t.get("ratio", 0) >= 7.0
+        return engine_to_native_ok(v, nat_res)
+
+    jobs = []
+    for u in range(35):
+        for pre in ((0, 1) if tier == "quick" else (0, 1, 2, 3)):
+            for holes in (0, 1):
+                jobs.append(job("HRepeatSqli", [u, holes, K, pre, PB, SL], safety=True, witness_every=50, max_witness=1))
+    for u in range(33):
+        for pre in ((0, 1) if tier == "quick" else (0, 1, 2, 3)):
+            for holes in (0, 1):
+                jobs.append(job("HRepeatXss", [u, holes, K, pre, PB, SL], safety=True, witness_every=50, max_witness=1))
+    c.run_group("T-families", COST, jobs, expect_labels=["checked"], confirm=confirm)
+    jobs = []
+    for which in range(6):
+        jobs.append(job("HRepeatFree", [1, K + 8, which, PB, SL], safety=True, witness_every=50))
+        part = SQL_PARTS if which == 0 else XSS_PARTS
+        jobs += part_jobs("HRepeatFree", [2, K // 2 + 4, which, PB, SL], part, safety=True, witness_every=200)
+        if tier != "quick" and which != 0:
+            jobs += part_jobs("HRepeatFree", [3, K // 3 + 2, which, PB, SL], part, safety=True, witness_every=500)
+    c.run_group("W-free-units", COST, jobs, expect_labels=["checked"], confirm=confirm)
+    # unit level: cost of one call linear in the bytes consumed (constants fixed from the functions' structure)
+    NS, NL, NT, NUR = (8, 4, 6, 5) if tier == "quick" else (10, 5, 8, 6)
+    jobs = [job("HCostStrCore", [n, 2, 4], safety=True) for n in range(1, NS + 1)]
+    for f in (0, 1, 2):
+        jobs += wjobs("HCostLex", NL, extra=[f, 16, 2400], safety=True)
+    for st in range(22):
+        for n in range(0, NT + 1):
+            jobs.append(job("HCostState", [n, st, 4, 8], safety=True))
+    jobs += wjobs("HCostURL", NUR, extra=[24, 64], partition=XSS_PARTS, split_from=5, safety=True)
+    c.run_group("U-units", COST, jobs, expect_labels=["checked"], confirm=confirm)
+    c.extra_cov["native_timing_runs"] = timing_log
+    c.extra_cov["cost_model"] = "abstract cost = input bytes examined: one unit per byte scanned by IndexByte/Index/Contains/HasPrefix (up to and including the match), per byte compared by string ==, copied by + / ToUpper / ToLower / ReplaceAll / copy, per explicit s[i], per key byte of a map look-up"
+    c.assumptions.append("abstract cost model, not wall-clock time; constants frozen: %d per byte, slack %d, doubling ratio <= 2.25" % (PB, SL))
+    return c.finish("other", "worst-case abstract cost over all feasible paths: 68 repetition families (unit^k vs unit^2k, k=%d, with 0/1 free bytes in the unit, 2-4 context prefixes), every 1- and 2-byte free unit for IsSQLi and the 5 XSS contexts, and per-call bounds for the string scanner (<= %d bytes), scan steps, every tokenizer state and the URL matcher" % (K, NS),
+                    {"k": K, "per_byte": PB, "slack": SL, "strcore_free_bytes": NS})
+
+
+SQLT = BASE + H("h_sqli.go", "h_sql_tpl.go")
+NCTX, NATK, NTAIL, NSEP = 10, 48, 9, 4
+GRAMMAR = os.path.join(VERIF, "grammar", "sqli.json")
+
+
+def sql_grammar():
+    """the calibrated grammar: all (ctx, attack, sep, tail) derivations minus the exclusions recorded at calibration"""
+    g = json.load(open(GRAMMAR)) if os.path.exists(GRAMMAR) else {"excluded": []}
+    ex = set(tuple(e["derivation"]) for e in g["excluded"])
+    return [(c, a, sp, t) for c in range(NCTX) for a in range(NATK) for sp in range(NSEP) for t in range(NTAIL) if (c, a, sp, t) not in ex], g
+
+
+def c03(tier, seed):
+    c = Check("C03", tier, seed)
+    allg, g = sql_grammar()
+    if tier == "calibrate":
+        sel = [(cx, a, sp, t) for cx in range(NCTX) for a in range(NATK) for sp in range(NSEP) for t in range(NTAIL)]
+    elif tier == "quick":
+        # every (context, attack) pair with one rotating (separator, tail) choice, plus every (attack, sep, tail) in the first three contexts' rotation
+        sel = [d for d in allg if (d[2] * NTAIL + d[3]) % (NSEP * NTAIL) == (d[0] * 7 + d[1] * 5 + seed) % (NSEP * NTAIL)]
+        sel += [d for d in allg if d[0] == (d[1] + d[2] + d[3]) % 3 and (d[1] + d[3]) % 4 == seed % 4]
+        sel = sorted(set(sel))
+    else:
+        sel = allg
+    jobs = [job("HSqlAttack", list(d), safety=True, witness_every=4, max_witness=1) for d in sel]
+    rs = c.run_group("T-attacks", SQLT, jobs, expect_labels=["checked"] if tier != "calibrate" else ())
+    if tier == "calibrate":
+        bad = []
+        for r in rs:
+            if r.get("violations"):
+                v = r["violations"][0]
+                bad.append({"derivation": r["args"], "reason": "not detected for all hole values on the tree the grammar was calibrated on (e.g. %s)" % v["text"][:120]})
+        json.dump({"calibrated_on": subprocess_out("git -C %s rev-parse --short HEAD" % REPO), "derivations_total": len(sel), "excluded": bad,
+                   "note": "G_sqli = contexts x attacks x separator shapes x tails of harness/h_sql_tpl.go minus the exclusions; frozen after calibration, so a later loss of detection is a violation"}, open(GRAMMAR, "w"), indent=1)
+        log("calibration: %d of %d derivations excluded" % (len(bad), len(sel)))
+        c.violations, c.unconfirmed = [], []
+    c.extra_cov["grammar"] = {"derivations_in_grammar": len(allg), "explored_this_run": len(sel), "excluded_at_calibration": len(g.get("excluded", []))}
+    return c.finish("model_checking", "attack grammar (10 context prefixes x 48 attack bodies x 4 separator shapes x 9 tails, calibrated): %d derivations explored, each with symbolic letter case, whitespace bytes (all 8 SQL whitespace bytes), digits and identifier letters" % len(sel),
+                    {"derivations": len(sel)})
+
+
+def subprocess_out(cmd):
+    import subprocess
+    return subprocess.run(cmd, shell=True, capture_output=True, text=True).stdout.strip()
+
+
+def c14(tier, seed):
+    c = Check("C14", tier, seed)
+    jobs = [job("HBlacklistN1", [l], safety=True, witness_every=1) for l in range(1, 6)]
+    c.run_group("blacklist-n1", SQLT, jobs, expect_labels=["checked"])
+    jobs = []
+    K = 4 if tier == "quick" else 5
+    for k in range(1, K + 1):
+        for mask in range(1 << k):
+            for wl, nl in (((3, 2),) if tier == "quick" else ((2, 1), (3, 2), (4, 3))):
+                if k >= 4 and bin(mask).count("0") - (len(bin(mask)) - 2 - k) > 3 and tier == "quick":
+                    pass
+                jobs.append(job("HBenign", [k, mask, wl, nl], safety=True, witness_every=200, max_witness=1))
+    # longer sentences: at most 2 identifiers, the rest numbers (identifiers fork 8 ways on their first letter)
+    for k in (6, 7):
+        for mask in range(1 << k):
+            if k - bin(mask).count("1") <= (1 if tier == "quick" else 2):
+                jobs.append(job("HBenign", [k, mask, 3, 2], safety=True, witness_every=200, max_witness=1))
+    for shape in range(7):
+        for wl in ((3,) if tier == "quick" else (2, 3, 4)):
+            jobs.append(job("HBenignShape", [shape, wl], safety=True, witness_every=200, max_witness=1))
+    c.run_group("T-benign", SQLT, jobs, expect_labels=["checked"])
+    return c.finish("model_checking", "no {n,1} fingerprint of length 1-5 is blacklisted (symbolic fingerprint through the real blacklist()); sentences of k <= %d items (every number/identifier pattern; identifiers of free letters that are not a component of any keyword-table key); k = 6,7 with few identifiers; e-mail / decimal / sentence shapes" % K,
+                    {"max_items_complete": K})
+
+
+def c10(tier, seed):
+    c = Check("C10", tier, seed)
+    NW, NU = (2, 4) if tier == "quick" else (3, 5)
+    jobs = wjobs("HSqliCase", NW, split_from=2)
+    c.run_group("W-flip", BASE + H("h_sqli.go", "h_case.go"), jobs, expect_labels=["checked"])
+    jobs = []
+    for f in range(5):
+        jobs += wjobs("HLexCase", NU, extra=[f], split_from=4)
+    c.run_group("U-first-token", BASE + H("h_sqli.go", "h_case.go"), jobs, expect_labels=["checked"])
+    allg, g = sql_grammar()
+    sel = sorted(set((d[0], d[1], d[3]) for d in allg if tier != "quick" or (d[0] + d[1] + d[3]) % 3 == seed % 3))
+    jobs = [job("HSqlCaseT", list(d), witness_every=4, max_witness=1) for d in sel]
+    c.run_group("T-attacks", SQLT, jobs, expect_labels=["checked"])
+    c.assumptions.append("W/U inputs contain no backslash, no '$' and no q' opener (the property's exempt positions); text reaching Unicode case folding is ASCII")
+    return c.finish("model_checking", "IsSQLi(s) = IsSQLi(flip(s)) for every input <= %d bytes and every flip mask; first token of s and flip(s) agree in class/offsets in 5 modes for inputs <= %d; two independent case assignments of every attack template" % (NW, NU),
+                    {"W_free_bytes": NW, "U_free_bytes": NU, "templates": len(sel)})
+
+
+def c11(tier, seed):
+    c = Check("C11", tier, seed)
+    NW, NC, NN, NB = (3, 4, 4, 5) if tier == "quick" else (4, 5, 5, 7)
+    jobs = wjobs("HXssCase", NW, partition=XSS_PARTS, split_from=3)
+    for ctx in range(5):
+        jobs += wjobs("HXssCaseCtx", NC, extra=[ctx], partition=XSS_PARTS, split_from=4)
+    c.run_group("W-case", XSSA, jobs, expect_labels=["checked"])
+    jobs = []
+    for ctx in range(5):
+        for n in range(2, NN + 1):
+            for k in range(1, n):
+                jobs.append(job("HXssNul", [n, ctx, k], witness_every=50))
+    c.run_group("W-nul", XSSA, jobs)
+    jobs = []
+    for n in range(2, NB + 1):
+        for k in range(1, n):
+            jobs.append(job("HBlackTagNul", [n, k], witness_every=50))
+            jobs.append(job("HBlackAttrNul", [n, k], witness_every=50))
+    for w in range(3):
+        jobs += wjobs("HBlackCase", NB - 1, extra=[w], partition=XSS_PARTS, split_from=4)
+    c.run_group("U-classifiers", XSSA, jobs, expect_labels=["checked"])
+    # templates: every baseline name classified the same under two case assignments / with a NUL at every interior position
+    jobs = []
+    step = 1 if tier != "quick" else 4
+    for i in range(seed % step, NEVENTS, step):
+        jobs.append(job("HNameInvT", [0, i], witness_every=5, max_witness=1))
+    for i in range(NBLACKS):
+        jobs.append(job("HNameInvT", [1, i], witness_every=5, max_witness=1))
+    for i in range(NTAGS):
+        jobs.append(job("HNameInvT", [2, i], witness_every=5, max_witness=1))
+    c.run_group("T-names", XSST + H("h_xss_inv.go"), jobs, expect_labels=["checked"])
+    c.assumptions.append("text reaching Unicode case folding is ASCII (other paths are closed as excluded and counted)")
+    return c.finish("model_checking", "IsXSS(s) = IsXSS(flip(s)) for inputs <= %d, per context <= %d; NUL inserted strictly inside a name token of (s, ctx) for inputs <= %d; classifiers under NUL insertion / case flips for names <= %d; every baseline name under case re-assignment and NUL insertion at every interior position" % (NW, NC, NN, NB),
+                    {"W_free_bytes": NW, "ctx_free_bytes": NC, "nul_free_bytes": NN, "classifier_free_bytes": NB})
+
+
+PROPS = {"C03": c03, "C10": c10, "C11": c11, "C14": c14, "C09": c09, "C05": c05, "C04": c04, "C07": c07, "C06": c06, "C19": c19, "C20": c20, "C01": c01, "C02": c02, "C08": c08, "C12": c12, "C13": c13, "C15": c15, "C16": c16, "C17": c17, "C18": c18}
 
 
 
